@@ -465,3 +465,65 @@ func Same(a, b Value) bool {
 	}
 	return true
 }
+
+// HeaderOffsets walks a valid encoding and returns the offset of every item header.
+func HeaderOffsets(b []byte) []int {
+	var offs []int
+	var walk func(pos int) int
+	walk = func(pos int) int {
+		if pos >= len(b) {
+			return -1
+		}
+		offs = append(offs, pos)
+		fc := b[pos] >> 2
+		nlen := int(b[pos] & 3)
+		if nlen == 0 || pos+1+nlen > len(b) {
+			return -1
+		}
+		length := int(readBE(b[pos+1 : pos+1+nlen]))
+		pos += 1 + nlen
+		if fc == List {
+			for i := 0; i < length; i++ {
+				pos = walk(pos)
+				if pos < 0 {
+					return -1
+				}
+			}
+			return pos
+		}
+		return pos + length
+	}
+	if len(b) > 0 {
+		walk(0)
+	}
+	return offs
+}
+
+// EncodeWith encodes v choosing the number of length bytes per item through pick (which receives
+// the minimal count 1..3 and returns a count >= minimal and <= 3): non-canonical but valid E5.
+func EncodeWith(dst []byte, v Value, pick func(minimal int) int) []byte {
+	if v.FC == Empty {
+		return dst
+	}
+	length := v.payloadLen()
+	minimal := len(Header(v.FC, length)) - 1
+	n := pick(minimal)
+	if n < minimal {
+		n = minimal
+	}
+	if n > 3 {
+		n = 3
+	}
+	dst = append(dst, v.FC<<2|byte(n))
+	for i := n - 1; i >= 0; i-- {
+		dst = append(dst, byte(length>>(8*uint(i))))
+	}
+	if v.FC == List {
+		for _, c := range v.List {
+			dst = EncodeWith(dst, c, pick)
+		}
+		return dst
+	}
+	body := AppendEncode(nil, v)
+	return append(dst, body[minimal+1:]...)
+}
